@@ -168,6 +168,22 @@ func suiteNode(c *Ctx) {
 	c.Class("scenario/heavy-laggard")
 	scenarioSyncWithoutProof(c)
 	c.Class("scenario/sync-without-proof")
+	scenarioMinorityPreparedStalled(c)
+	c.Class("scenario/minority-prepared-stalled")
+	scenarioBadShareFirstInCache(c)
+	c.Class("scenario/bad-share-first-in-cache")
+	for _, nn := range []int{5, 6, 7} {
+		scenarioHugeViewThenViewZero(c, nn)
+	}
+	c.Class("scenario/huge-view-then-view-zero")
+	nam := 6
+	if c.Thorough() {
+		nam = 60
+	}
+	for k := 0; k < nam; k++ {
+		scenarioAfterAcceptMutations(c, k)
+	}
+	c.Class("scenario/after-accept-mutations")
 }
 
 // schemeFor: every fifth scenario uses long ids with a common three-byte prefix, every seventh ids
@@ -722,6 +738,11 @@ func scenarioNewViewMutationSweep(c *Ctx) *Net {
 	send("pp-instance", genuine(), a.ppContent(byz, protocol.LEAN_HELIX_PREPREPARE, inst+1, h, nv, hash), blk)
 	send("pp-type", genuine(), a.ppContent(byz, protocol.LEAN_HELIX_PREPARE, inst, h, nv, hash), blk)
 	send("pp-by-outsider", genuine(), a.ppContent(a.outsiders[0], protocol.LEAN_HELIX_PREPREPARE, inst, h, nv, hash), blk)
+	{
+		forged := goodPP()
+		forged.Sender = &protocol.SenderSignatureBuilder{MemberId: byz, Signature: []byte("not-the-leaders-signature")}
+		send("pp-forged-signature", genuine(), forged, blk)
+	}
 	send("no-block", genuine(), goodPP(), nil)
 	{
 		// the lock is there (a genuine proof among the votes) but the embedded proposal names ANOTHER hash: without a block, and with that hash's own block
